@@ -469,6 +469,10 @@ class Sim:
         self.dsession: Any = None
         self.ctl_trace: list[dict[str, Any]] = []         # per loop_once: event, commands, publications (for the Lean tie)
         self._flag_lines: list[str] = []
+        # relative speed of the workers' main threads (imbalance makes work stealing and top-ups happen)
+        self.speed: dict[int, float] = {}
+        if rng.random() < 0.6:
+            self.speed = {k: rng.choice([0.15, 0.4, 1.0, 1.0, 3.0]) for k in range(cfg.numnodes + 8)}
         self._crash_requeued = False
         self._last_requeue_mark = 0
         self._open: dict[str, Any] | None = None
@@ -549,7 +553,11 @@ class Sim:
                     w = rng.choice(live)
                     self.do("crash", w)
                     continue
-            kind, w = rng.choice(choices)
+            if self.speed:
+                weights = [1.0 if w is None else (self.speed.get(w.number, 1.0) if k == "main" else 1.0) for k, w in choices]
+                kind, w = rng.choices(choices, weights=weights)[0]
+            else:
+                kind, w = rng.choice(choices)
             if kind == "ctl":
                 self.trace.append("ctl")
                 return self._hand_over(q)
